@@ -2505,6 +2505,12 @@ func (s *swamp) GetTreasuresByBeacon(beaconType BeaconType, beaconOrderType Beac
 	// set the last interaction time to the current time
 	atomic.StoreInt64(&s.lastInteractionTime, time.Now().UnixNano())
 
+	// From is a zero-based starting index: a negative value starts from the beginning (the bucket path,
+	// applyFromLimit, does the same). The beacons index treasuresByOrder[start+from] without a lower bound.
+	if from < 0 {
+		from = 0
+	}
+
 	// if the limit 0 its means that we need to get all treasures from the beacon from, the "from" parameter
 	if limit == 0 {
 		// get the element count of the beacon
